@@ -21,6 +21,8 @@ for log in sys.argv[1:]:
             var = {'a': 'g', 'b': 'h'}.get(var, var)          # fourth wave: <prop>_g
         if 'seedout5' in d:
             var = {'a': 'h', 'b': 'i'}.get(var, var)          # fifth wave: <prop>_h
+        if 'seedout6' in d:
+            var = {'a': 'i', 'b': 'j'}.get(var, var)          # sixth wave: <prop>_i
         if 'seedout3' in d:
             var = {'a': 'e', 'b': 'f'}.get(var, var)          # third wave: <prop>_e, <prop>_f
         name = f'{prop}_{var}'
